@@ -421,6 +421,134 @@ theorem C08_range_types (s : List Char) (l : List Starcal.Ival)
     · obtain ⟨hdd, hck⟩ := decode_eq "ex_year" "int_range_list" false (by decide)
       exact ⟨by rw [hdd]; exact hd, by rw [hck]; simp⟩
 
+/-! ## The converse for one type: accepted ⇒ format -/
+/-- the texts `strconv.ParseInt(·, 10, …)` accepts: an optional sign and at least one digit -/
+def IsIntText (s : List Char) : Prop :=
+  ∃ sign ds, s = sign ++ ds ∧ (sign = [] ∨ sign = ['-'] ∨ sign = ['+']) ∧ ds ≠ [] ∧ ∀ c ∈ ds, isDigit c = true
+
+theorem parseDigits_digits (ds : List Char) (acc k : Nat) (h : parseDigits ds acc = some k) : ∀ c ∈ ds, isDigit c = true := by
+  induction ds generalizing acc with
+  | nil => intro c hc; simp at hc
+  | cons d r ih =>
+    unfold parseDigits at h
+    cases hd : digitVal? d with
+    | none => simp [hd] at h
+    | some v =>
+      simp only [hd] at h
+      intro c hc
+      rcases List.mem_cons.mp hc with rfl | hc
+      · unfold digitVal? at hd
+        split at hd
+        · rename_i hr; simp [isDigit, hr.1, hr.2]
+        · simp at hd
+      · exact ih _ h c hc
+
+theorem parseNat_digits (ds : List Char) (k : Nat) (h : parseNat ds = some k) : ds ≠ [] ∧ ∀ c ∈ ds, isDigit c = true := by
+  unfold parseNat at h
+  split at h
+  · simp at h
+  · rename_i hne
+    exact ⟨by intro e; subst e; simp at hne, parseDigits_digits ds 0 k h⟩
+
+/-- whatever `parseInt` accepts is an optional sign followed by digits -/
+theorem parseInt_isIntText (s : List Char) (n : Int) (h : parseInt s = some n) : IsIntText s := by
+  unfold parseInt at h
+  split at h
+  · rename_i ds
+    cases hp : parseNat ds with
+    | none => simp [hp] at h
+    | some k => obtain ⟨h1, h2⟩ := parseNat_digits ds k hp; exact ⟨['-'], ds, rfl, Or.inr (Or.inl rfl), h1, h2⟩
+  · rename_i ds
+    cases hp : parseNat ds with
+    | none => simp [hp] at h
+    | some k => obtain ⟨h1, h2⟩ := parseNat_digits ds k hp; exact ⟨['+'], ds, rfl, Or.inr (Or.inr rfl), h1, h2⟩
+  · cases hp : parseNat s with
+    | none => simp [hp] at h
+    | some k => obtain ⟨h1, h2⟩ := parseNat_digits s k hp; exact ⟨[], s, rfl, Or.inl rfl, h1, h2⟩
+
+/-- **accepted ⇒ format** for `dayTime`: a text that decodes and passes the check is two or three
+    colon-separated integer texts whose values are the decoded, in-range fields -/
+theorem C08_dayTime_accepted_is_format (s : List Char) (x : HMS)
+    (hd : decode "dayTime" s = .ok (.hms x)) (hc : check "dayTime" (.hms x) = .ok true) :
+    ∃ parts, splitOn ':' s = parts ∧ (parts.length = 2 ∨ parts.length = 3) ∧ (∀ p ∈ parts, IsIntText p) ∧
+      parseInt (parts.getD 0 []) = some x.hour ∧ parseInt (parts.getD 1 []) = some x.minute ∧
+      (parts.length = 3 → parseInt (parts.getD 2 []) = some x.second) ∧ (parts.length = 2 → x.second = 0) ∧
+      0 ≤ x.hour ∧ x.hour < 24 ∧ 0 ≤ x.minute ∧ x.minute < 60 ∧ 0 ≤ x.second ∧ x.second < 60 := by
+  obtain ⟨hdd, hck⟩ := decode_eq "dayTime" "HMS" true (by decide)
+  rw [hdd] at hd
+  rw [hck] at hc
+  simp only [decodeWith, ofOpt] at hd
+  cases hp : parseHMS narrowNew s with
+  | none => simp [hp] at hd
+  | some y =>
+    simp only [hp] at hd
+    injection hd with hd
+    injection hd with hd
+    subst hd
+    -- validity of the decoded time
+    simp only [if_true, checkWith, Chk.ok.injEq, HMS.isValid, Bool.and_eq_true, decide_eq_true_eq] at hc
+    -- unfold the parser
+    have nn : ∀ v : Int, narrowNew v < 60 → narrowNew v = v ∧ 0 ≤ v := by
+      intro v hv; unfold narrowNew at hv ⊢; split <;> simp_all <;> omega
+    have nn24 : ∀ v : Int, narrowNew v < 24 → narrowNew v = v ∧ 0 ≤ v := by
+      intro v hv; unfold narrowNew at hv ⊢; split <;> simp_all <;> omega
+    have getD_mem : ∀ (l : List (List Char)) (k : Nat), k < l.length → l.getD k [] ∈ l := by
+      intro l k hk
+      have : l.getD k [] = l[k] := by simp [List.getD, hk]
+      rw [this]; exact List.getElem_mem hk
+    unfold parseHMS at hp
+    simp only at hp
+    generalize hparts : splitOn ':' s = parts at hp
+    split at hp
+    · simp at hp
+    · rename_i hlen
+      have hl : parts.length = 2 ∨ parts.length = 3 := by omega
+      split at hp
+      · rename_i h m h0 h1
+        refine ⟨parts, rfl, hl, ?_⟩
+        split at hp
+        · rename_i h3
+          split at hp
+          · rename_i sec h2
+            simp only [Option.some.injEq] at hp
+            subst hp
+            simp only at hc
+            obtain ⟨e1, p1⟩ := nn24 h hc.1.1
+            obtain ⟨e2, p2⟩ := nn m hc.1.2
+            obtain ⟨e3, p3⟩ := nn sec hc.2
+            refine ⟨?_, by simp only [e1]; exact h0, by simp only [e2]; exact h1, fun _ => by simp only [e3]; exact h2,
+              fun h2' => by omega, by simp only [e1]; exact p1, hc.1.1, by simp only [e2]; exact p2, hc.1.2,
+              by simp only [e3]; exact p3, hc.2⟩
+            intro p hp'
+            -- every part is one of the three parsed ones
+            obtain ⟨k, hk, rfl⟩ := List.getElem_of_mem hp'
+            have hk3 : k = 0 ∨ k = 1 ∨ k = 2 := by omega
+            have e : ∀ j, j < parts.length → parts.getD j [] = parts[j]! := by
+              intro j hj; simp [List.getD, hj]
+            rcases hk3 with rfl | rfl | rfl
+            · have := parseInt_isIntText _ _ h0; simpa [List.getD, hk] using this
+            · have := parseInt_isIntText _ _ h1; simpa [List.getD, hk] using this
+            · have := parseInt_isIntText _ _ h2; simpa [List.getD, hk] using this
+          · simp at hp
+        · rename_i h3
+          simp only [Option.some.injEq] at hp
+          subst hp
+          simp only at hc
+          obtain ⟨e1, p1⟩ := nn24 h hc.1.1
+          obtain ⟨e2, p2⟩ := nn m hc.1.2
+          have hz : narrowNew 0 = 0 := by decide
+          refine ⟨?_, by simp only [e1]; exact h0, by simp only [e2]; exact h1, fun h3' => absurd h3' h3,
+            fun _ => hz, by simp only [e1]; exact p1, hc.1.1, by simp only [e2]; exact p2, hc.1.2,
+            by show (0 : Int) ≤ narrowNew 0; rw [hz]; omega, hc.2⟩
+          intro p hp'
+          obtain ⟨k, hk, rfl⟩ := List.getElem_of_mem hp'
+          have hk3 : k = 0 ∨ k = 1 := by omega
+          rcases hk3 with rfl | rfl
+          · have := parseInt_isIntText _ _ h0; simpa [List.getD, hk] using this
+          · have := parseInt_isIntText _ _ h1; simpa [List.getD, hk] using this
+      · simp at hp
+
+
 section WeekMonth
 open Starcal.WM
 set_option maxRecDepth 4000
